@@ -19,7 +19,7 @@ from typing import Any, Dict, List, Optional
 from .gomodel import Node
 
 BYTE_TYPES = {"byte", "uint8", "unsigned char", "uint8_t"}
-PTR_WIDTH = {"uint8_t": 1, "unsigned char": 1, "char": 1, "int8_t": 1, "uint16_t": 2, "int16_t": 2, "unsigned short": 2, "short": 2, "uint32_t": 4, "int32_t": 4, "unsigned int": 4, "int": 4, "uint64_t": 8, "int64_t": 8, "unsigned long": 8, "long": 8, "unsigned long long": 8, "long long": 8}
+PTR_WIDTH = {"bool": 1, "_Bool": 1, "uint8_t": 1, "unsigned char": 1, "char": 1, "int8_t": 1, "uint16_t": 2, "int16_t": 2, "unsigned short": 2, "short": 2, "uint32_t": 4, "int32_t": 4, "unsigned int": 4, "int": 4, "uint64_t": 8, "int64_t": 8, "unsigned long": 8, "long": 8, "unsigned long long": 8, "long long": 8}
 NUM_CONVS = {"int", "int8", "int16", "int32", "int64", "uint", "uint16", "uint32", "uint64", "uintptr", "Flag"}
 _ARITH = {"+": ast.Add, "-": ast.Sub, "*": ast.Mult, "/": ast.FloorDiv, "%": ast.Mod, "<<": ast.LShift, ">>": ast.RShift, "&": ast.BitAnd, "|": ast.BitOr, "^": ast.BitXor}
 _CMP = {"<": ast.Lt, "<=": ast.LtE, "==": ast.Eq, "!=": ast.NotEq, ">=": ast.GtE, ">": ast.Gt}
@@ -122,7 +122,7 @@ class Conv:
             base = tn.replace("const ", "").strip()
             if self.lang == "c" and base.endswith("*"):
                 elem = base[:-1].strip()
-                if elem in PTR_WIDTH and PTR_WIDTH[elem] > 1:
+                if elem in PTR_WIDTH and elem not in ("unsigned char", "char"):
                     return self._at(ast.Call(func=ast.Name(id="__ptr__", ctx=ast.Load()), args=[ast.Constant(value=elem), self.expr(e.x)], keywords=[]), e)
                 return self.expr(e.x)
             if base in BYTE_TYPES:
@@ -170,10 +170,36 @@ class Conv:
             out.extend(self.stmt(s))
         return out
 
+    def _split_post(self, p: Node) -> List[Node]:
+        """`k++, q += n` as separate statements"""
+        from .gomodel import N
+
+        if p.k == "exprstmt":
+            return self._split_post(p.x)
+        if p.k == "paren":
+            return self._split_post(p.x)
+        if p.k == "bin" and p.op == ",":
+            return self._split_post(p.l) + self._split_post(p.r)
+        if p.k == "un" and p.op in ("++", "--"):
+            return [N("incdec", p.get("line", 0), x=p.x, op=p.op)]
+        if p.k == "bin" and p.op in ("+=", "-=", "*=", "|=", "&=", "<<=", ">>=", "="):
+            return [N("assign", p.get("line", 0), lhs=[p.l], op=p.op, rhs=[p.r])]
+        return [p]
+
     def _canonical_for(self, s: Node) -> Optional[ast.stmt]:
         i, c, p = s.get("init"), s.get("cond"), s.get("post")
         if i is None or c is None or p is None:
             return None
+        extra: List[Node] = []
+        posts = self._split_post(p)
+        if len(posts) > 1:
+            counters = [q for q in posts if q.k == "incdec" and q.op == "++" and q.x.k == "id" and i.k == "assign" and i.lhs[0].k == "id" and q.x.name == i.lhs[0].name]
+            if len(counters) != 1:
+                return None
+            extra = [q for q in posts if q is not counters[0]]
+            p = counters[0]
+        elif posts:
+            p = posts[0]
         if i.k != "assign" or len(i.lhs) != 1 or i.lhs[0].k != "id" or i.rhs[0].k != "int" or i.rhs[0].v != 0:
             return None
         v = i.lhs[0].name
@@ -185,7 +211,7 @@ class Conv:
         if not ((p.k == "incdec" and p.op == "++" and p.x.k == "id" and p.x.name == v) or (p.k == "assign" and p.op == "+=" and p.lhs[0].k == "id" and p.lhs[0].name == v and p.rhs[0].k == "int" and p.rhs[0].v == 1)):
             return None
         # the bound and the counter must not be assigned in the body
-        return self._at(ast.For(target=ast.Name(id=v, ctx=ast.Store()), iter=ast.Call(func=ast.Name(id="range", ctx=ast.Load()), args=[self.expr(cc.r)], keywords=[]), body=self.stmts(s.body.stmts) or [ast.Pass()], orelse=[]), s)
+        return self._at(ast.For(target=ast.Name(id=v, ctx=ast.Store()), iter=ast.Call(func=ast.Name(id="range", ctx=ast.Load()), args=[self.expr(cc.r)], keywords=[]), body=(self.stmts(s.body.stmts) + self.stmts(extra)) or [ast.Pass()], orelse=[]), s)
 
     def stmt(self, s: Node) -> List[ast.stmt]:
         k = s.k
